@@ -174,6 +174,11 @@ def _set_constructions(f: FunctionInfo, ctx=None):
         up = parent.get(id(node))
         if isinstance(up, ast.Compare) and node in up.comparators and all(isinstance(o, (ast.In, ast.NotIn)) for o in up.ops):
             return True
+        if (isinstance(up, (ast.If, ast.While, ast.IfExp)) and up.test is node) or \
+                (isinstance(up, ast.UnaryOp) and isinstance(up.op, ast.Not)):
+            return True                          # asked whether it is empty: no order is read
+        if isinstance(up, ast.BoolOp):
+            return order_free_use(up)            # `a and s` / `s or t`: judged by what consumes the result
         if isinstance(up, ast.Call) and isinstance(up.func, ast.Name) and up.func.id in _ORDER_FREE and node in up.args:
             return True
         if isinstance(up, ast.BinOp) and isinstance(up.op, (ast.Sub, ast.BitAnd, ast.BitOr, ast.BitXor)):
